@@ -47,9 +47,11 @@ const USER_POLICIES: &[&str] = &[
 const ENC_POLICIES: &[&str] = &[
     "*", "SEC::LOW", "SEC::TOP", "DPT::FIN", "DPT::HR", "DPT::MKG", "SEC::LOW && DPT::FIN", "SEC::TOP && DPT::FIN", "SEC::TOP && DPT::HR",
     "SEC::LOW && DPT::MKG", "DPT::FIN || DPT::HR", "(SEC::TOP && DPT::FIN) || (SEC::LOW && DPT::RD)", "SEC::TOP && (DPT::MKG || DPT::DEV)",
+    // a conjunction that is a sub-conjunction of another one
+    "DPT::FIN || (DPT::FIN && SEC::TOP)", "SEC::LOW || (SEC::LOW && DPT::HR)",
 ];
 
-// @obl props=C01,C02,C09,C11 tier=quick fn=api::Covercrypt::decaps shape="test structure (SEC hierarchy with a hybridized attribute, DPT anarchy), 12 user policies x 13 encryption policies, real cryptography"
+// @obl props=C01,C02,C09,C11 tier=quick fn=api::Covercrypt::decaps shape="test structure (SEC hierarchy with a hybridized attribute, DPT anarchy), 12 user policies x 15 encryption policies, real cryptography"
 #[test]
 fn e2e__decaps_iff_cover_relation() {
     let cc = Covercrypt::default();
@@ -338,7 +340,7 @@ fn history__decaps_agrees_with_chain_model_len3() {
     println!("VERIF-COUNT history__decaps_agrees_with_chain_model_len3 {n}");
 }
 
-// @obl props=C03,C04,C05,C06,C09 tier=quick fn=api::Covercrypt::refresh_usk shape="17 hand-picked histories of 3 to 6 operations (double rekey then prune then refresh, delete then add then refresh, disable then rekey, ...), chain model, real cryptography"
+// @obl props=C03,C04,C05,C06,C09 tier=quick fn=api::Covercrypt::refresh_usk shape="19 hand-picked histories of 3 to 6 operations (double rekey then prune then refresh, delete then add then refresh, disable then rekey, ...), chain model, real cryptography"
 #[test]
 fn history__targeted_long_sequences() {
     use Op::*;
@@ -349,6 +351,8 @@ fn history__targeted_long_sequences() {
         &[Rekey("SEC::LOW && DPT::FIN"), Rekey("SEC::TOP"), Refresh(0, true), Prune("SEC::TOP"), Refresh(0, true)],
         &[Disable("DPT", "FIN"), Rekey("DPT::FIN"), Refresh(0, true), Roundtrip],
         &[Rekey("DPT::FIN"), Disable("DPT", "FIN"), Rekey("DPT::FIN"), Roundtrip, Prune("DPT::FIN")],
+        &[Rekey("DPT::FIN"), Refresh(0, true), Refresh(0, false), Refresh(1, true), Refresh(1, false)],
+        &[Rekey("SEC::TOP"), Rekey("DPT::FIN"), Refresh(0, true), Refresh(0, false)],
         &[Rekey("SEC::LOW && DPT::FIN"), Rekey("DPT::FIN"), Refresh(0, true), Refresh(0, true), Rekey("DPT::FIN"), Refresh(0, true)],
         &[Delete("DPT", "FIN"), AddAttr("DPT", "NEW"), Refresh(0, true), Refresh(1, false)],
         &[Disable("DPT", "FIN"), Prune("DPT::FIN"), Rekey("SEC::TOP"), Refresh(1, false)],
